@@ -242,6 +242,13 @@ class Transaction:
                 )
         else:
             self._validate_schema_against_table(schema)
+            # The argument was only validated as a SET of (name, type, required):
+            # it may list the fields in another order or under other field ids.
+            # Writing with it produced files whose column order differs from the
+            # rest of the table (every later scan fails in concat_tables) or
+            # whose column bounds are keyed by foreign ids (filtered scans prune
+            # files that hold matching rows). The persisted schema decides.
+            schema = self._resolve_table_schema() or schema
 
         # Create a data file with the records using UUID for uniqueness
         file_id = uuid.uuid4().hex[:16]  # Use 16 chars of UUID hex
